@@ -52,7 +52,7 @@ def run_check(prop, repo, vdir, overlay=()):
         env = dict(os.environ, LUNAR_REPO=repo, LUNAR_VERIF_OUT=vdir)
         rc, out = sh(["python3", os.path.join(VERIF, "pycheck", "c19.py"), "--tier", "quick"], cwd=VERIF, env=env)
     else:
-        cmd = [os.path.join(VERIF, "bin", "lunarcheck"), "-p", prop, "-repo", repo, "-verif", vdir]
+        cmd = [os.environ.get("LUNARCHECK_BIN", os.path.join(VERIF, "bin", "lunarcheck")), "-p", prop, "-repo", repo, "-verif", vdir]
         for o, r in overlay:
             cmd += ["-overlay", f"{o}={r}"]
         rc, out = sh(cmd, cwd=VERIF)
